@@ -219,8 +219,37 @@ func (w *ro) Fetch(ctx context.Context, target ocispec.Descriptor) (io.ReadClose
 		w.r.event(w.side, "Fetch", k, "end", true)
 		return nil, err
 	}
+	if kind, hit := w.r.fault(w.side, "Fetch", k, "mid"); hit {
+		// the read fails (or the context is cancelled) half way through the content
+		return &readCloser{rc: &midFail{rc: rc, left: target.Size / 2, kind: kind, r: w.r}, w: w, k: k}, nil
+	}
 	return &readCloser{rc: rc, w: w, k: k}, nil
 }
+
+type midFail struct {
+	rc   io.ReadCloser
+	left int64
+	kind string
+	r    *Recorder
+}
+
+func (m *midFail) Read(p []byte) (int, error) {
+	if m.left <= 0 {
+		if m.kind == "cancel" && m.r.Cancel != nil {
+			m.r.Cancel()
+			return 0, context.Canceled
+		}
+		return 0, fmt.Errorf("src Fetch mid-stream: %w", ErrInjected)
+	}
+	if int64(len(p)) > m.left {
+		p = p[:m.left]
+	}
+	n, err := m.rc.Read(p)
+	m.left -= int64(n)
+	return n, err
+}
+
+func (m *midFail) Close() error { return m.rc.Close() }
 
 type readCloser struct {
 	rc   io.ReadCloser
